@@ -72,3 +72,46 @@ Example ex_body_evaluates :
   | _ => False
   end /\ wfb ex_body = true.
 Proof. vm_compute. split; [split|]; reflexivity. Qed.
+
+(** Dead-code elimination (crates/compiler/src/go/dce.rs) decides what it may drop with expr_has_side_effects /
+    stmt_has_side_effects; [has_effects] / [stmt_has_effects] (C09/Dce.v) mirror them and are compared with the real
+    functions on every run.  For every Go expression and statement they classify as effect-free, in every environment
+    and state and with any fuel: if it evaluates, standard output is unchanged and the heap is only extended (so
+    nothing that existed before can tell whether it ran); and if it fails, it fails on a nil dereference or a failed
+    type assertion with the output unchanged — never on an index or a division, which the classification keeps. *)
+From Goml Require Import Sem.GoAst Sem.GoSem C09.Dce C09.DceProofs.
+Theorem effect_free_expression_is_unobservable :
+  forall fns ifaces smethods fuel e rho s, has_effects e = false ->
+  match eval fns ifaces smethods fuel e rho s with
+  | Ok (_, s') => out s' = out s /\ exists ext, heap s' = heap s ++ ext
+  | Panic m o => (m = s_nil \/ m = s_assert) /\ o = out s
+  | _ => True
+  end.
+Proof. intros fns ifaces smethods fuel e rho s H. pose proof (proj1 (all_quiet fns ifaces smethods fuel) e rho s H) as G. destruct (eval fns ifaces smethods fuel e rho s) as [[v s']| | | |]; exact G. Qed.
+Print Assumptions effect_free_expression_is_unobservable.
+
+Theorem effect_free_statement_is_unobservable :
+  forall fns ifaces smethods fuel st rho s, stmt_has_effects st = false ->
+  match exec fns ifaces smethods fuel st rho s with
+  | Ok (_, _, s') => out s' = out s /\ exists ext, heap s' = heap s ++ ext
+  | Panic m o => (m = s_nil \/ m = s_assert) /\ o = out s
+  | _ => True
+  end.
+Proof. intros fns ifaces smethods fuel st rho s H. pose proof (proj2 (proj2 (all_quiet fns ifaces smethods fuel)) st rho s H) as G. destruct (exec fns ifaces smethods fuel st rho s) as [[[sg r] s']| | | |]; exact G. Qed.
+Print Assumptions effect_free_statement_is_unobservable.
+
+(** non-vacuity: &P{a: 1 + 2} is classified effect-free, evaluates, allocates one cell and prints nothing;
+    and the two classifications the theorem depends on are necessary: an index and a division do fail *)
+Example effect_free_example :
+  let e := EUnary UAddrOf (EStructLit [([97]%N, EBinary BAdd (EInt [49]%N GInt32) (EInt [50]%N GInt32) GInt32)] (GName [80]%N)) (GPointer (GName [80]%N)) in
+  has_effects e = false /\
+  eval [] [] [] 10%nat e [] {| heap := []; out := [] |} = Ok (VPtr 0%nat, {| heap := [VStruct [80]%N [([97]%N, VInt 3%Z)]]; out := [] |}).
+Proof. split; reflexivity. Qed.
+Example index_and_division_are_effects :
+  let rho := [([120]%N, VInt 1%Z); ([121]%N, VInt 0%Z)] in
+  let ix := EIndex (EArrayLit [] (GArray 0%N GInt32)) (EVar [121]%N GInt32) GInt32 in
+  let dv := EBinary BDiv (EVar [120]%N GInt32) (EVar [121]%N GInt32) GInt32 in
+  has_effects ix = true /\ has_effects dv = true /\
+  eval [] [] [] 10%nat ix rho {| heap := []; out := [] |} = Panic [105;110;100;101;120]%N [] /\
+  eval [] [] [] 10%nat dv rho {| heap := []; out := [] |} = Panic [100;105;118;105;100;101;32;98;121;32;122;101;114;111]%N [].
+Proof. repeat split; reflexivity. Qed.
